@@ -366,6 +366,9 @@ func (cr *cursor) updateNumSequence() bool {
 		}
 	case seenCloseNum:
 		cr.numSequence = noNumSequence // close the sequence anyway
+		if cr.line == ucd.BreakNU {
+			cr.numSequence = inNumSequence // and start a new one
+		}
 		if cr.line == ucd.BreakPO || cr.line == ucd.BreakPR {
 			// NU (NU | SY | IS)* (CL | CP) × (PO | PR)
 			return true
